@@ -425,10 +425,12 @@ class XsdElement(XsdComponent, ParticleMixin,
         if isinstance(node, SchemaElementNode):
             return node
 
+        # An element that is not in the schema tree (e.g. a copy for an xsi:type):
+        # provide a copy of the global elements, don't add it to the schema's ones.
         return build_schema_node_tree(
             root=self,
             elements=schema_node.elements,
-            global_elements=schema_node.children,
+            global_elements=schema_node.children[:],
         )
 
     @property
